@@ -233,6 +233,14 @@ class Canon(ast.NodeTransformer):
             has = ast.copy_location(ast.Call(func=ast.Name(id="hasattr", ctx=ast.Load()), args=[node.args[0], node.args[1]], keywords=[]), node)
             return ast.copy_location(ast.IfExp(test=has, body=attr, orelse=node.args[2]), node)
         fn = node.func.id if isinstance(node.func, ast.Name) else None
+        # frozenset([a, b]) / set((a, b)) is frozenset({a, b}) / {a, b}: a display of the same elements
+        if fn in ("frozenset", "set") and len(node.args) == 1 and not node.keywords and isinstance(node.args[0], (ast.List, ast.Tuple)) and node.args[0].elts \
+                and not any(isinstance(x, ast.Starred) for x in node.args[0].elts):
+            st = ast.copy_location(ast.Set(elts=node.args[0].elts), node.args[0])
+            if fn == "set":
+                return st
+            node.args = [st]
+            return node
         # isinstance(x, (A, B)) is isinstance(x, A) or isinstance(x, B)
         if fn == "isinstance" and len(node.args) == 2 and not node.keywords and isinstance(node.args[1], ast.Tuple) and 2 <= len(node.args[1].elts) <= 6:
             import copy
@@ -285,6 +293,32 @@ class Canon(ast.NodeTransformer):
             return ast.copy_location(lit, node)
         return node
 
+    def visit_Subscript(self, node):
+        # indexing an unfiltered element-wise map is mapping the indexed source:
+        #   tuple(f(x) for x in XS)[k] is f(XS[k]);   tuple(f(x) for x in XS)[a:b] is tuple(f(x) for x in XS[a:b])
+        self.generic_visit(node)
+        if not isinstance(node.ctx, ast.Load):
+            return node
+        v = node.value
+        wrap = None
+        if isinstance(v, ast.Call) and isinstance(v.func, ast.Name) and v.func.id in ("tuple", "list") and len(v.args) == 1 and not v.keywords:
+            wrap, v = v, v.args[0]
+        if isinstance(v, (ast.ListComp, ast.GeneratorExp)) and (wrap is not None or isinstance(v, ast.ListComp)) and len(v.generators) == 1:
+            g = v.generators[0]
+            if not g.ifs and not g.is_async and isinstance(g.target, ast.Name) and isinstance(g.iter, (ast.Name, ast.Attribute, ast.Subscript)):
+                import copy
+                if isinstance(node.slice, ast.Constant) and isinstance(node.slice.value, int):
+                    src = ast.copy_location(ast.Subscript(value=copy.deepcopy(g.iter), slice=node.slice, ctx=ast.Load()), node)
+
+                    class _S(ast.NodeTransformer):
+                        def visit_Name(self_, n):
+                            return copy.deepcopy(src) if n.id == g.target.id and isinstance(n.ctx, ast.Load) else n
+                    return ast.copy_location(_S().visit(copy.deepcopy(v.elt)), node)
+                if isinstance(node.slice, ast.Slice):
+                    g.iter = ast.copy_location(ast.Subscript(value=g.iter, slice=node.slice, ctx=ast.Load()), node)
+                    return wrap if wrap is not None else v
+        return node
+
     def visit_ListComp(self, node):
         # [x for _ in range(n)] with x a name / constant not depending on the loop is [x] * n
         self.generic_visit(node)
@@ -298,6 +332,11 @@ class Canon(ast.NodeTransformer):
     def visit_Assign(self, node):
         # x = A if c else B   ==   if c: x = A / else: x = B
         self.generic_visit(node)
+        # (x,) = E  is  x = E[0]   (the one-element unpacking also insists that E has exactly one element; what x is bound to is the same)
+        if len(node.targets) == 1 and isinstance(node.targets[0], (ast.Tuple, ast.List)) and len(node.targets[0].elts) == 1 and isinstance(node.targets[0].elts[0], ast.Name) \
+                and not isinstance(node.value, (ast.Tuple, ast.List)):
+            sub = ast.copy_location(ast.Subscript(value=node.value, slice=ast.Constant(value=0), ctx=ast.Load()), node.value)
+            node = ast.copy_location(ast.Assign(targets=[node.targets[0].elts[0]], value=sub), node)
         # D[k] = D[k] + e  is  D[k] += e   (an element update either way; plain names are left alone: for a list the two differ)
         if len(node.targets) == 1 and isinstance(node.targets[0], ast.Subscript) and isinstance(node.value, ast.BinOp) and isinstance(node.value.op, (ast.Add, ast.Sub, ast.Mult)) \
                 and ast.dump(_as_load(node.targets[0])) == ast.dump(node.value.left):
